@@ -22,7 +22,7 @@ Global Arguments Z.mul : simpl never.
 Global Arguments Z.sub : simpl never.
 Global Arguments Z.pow : simpl never.
 
-Definition byte := N.
+Notation byte := N (only parsing).
 
 (* Result of a model function.  PANIC is everything that aborts Rust in a build with
    overflow checks and debug assertions; FUEL is an exhausted fuelled loop. *)
